@@ -3,6 +3,7 @@
 mod arith;
 mod c10;
 mod c11;
+mod c15;
 mod c17;
 mod c18;
 mod c25;
@@ -35,6 +36,7 @@ const EXECS: &[Exec] = &[
     c29::exec,
     c20::exec,
     c22::exec,
+    c15::exec,
 ];
 
 /// Run one case (`op` + inputs) on the implementation: the first module that recognises the op answers.
@@ -50,6 +52,7 @@ fn generate(prop: &str, sink: &mut sink::Sink, rng: &mut rng::Rng, n: u64) -> bo
         "C07" => lang::generate(sink, rng, n, false, Some("o.c07")),
         "C08" => lang::generate(sink, rng, n, false, Some("o.c08")),
         "C09" => lang::generate(sink, rng, n, false, Some("o.c09")),
+        "C15" => c15::generate(sink, rng, n),
         "C16" => c17::generate_c16(sink, rng, n),
         "C17" => c17::generate(sink, rng, n),
         "C13" => lang::generate(sink, rng, n, false, Some("o.c13")),
